@@ -131,9 +131,23 @@ pub fn run(cfg: &Cfg, rep: &mut Report) {
             1 => {
                 // one-character near miss of a defined suffix
                 let mut s = rng.pick(q.table).s.as_bytes().to_vec();
-                match rng.usize(3) {
+                match rng.usize(5) {
                     0 => s.push(b'A' + rng.usize(26) as u8),
                     1 => s.insert(0, *rng.pick(b"KMGUNPTZXA")),
+                    // one character replaced by any other character a suffix may contain (letters, digits, . / -)
+                    2 | 3 => {
+                        let i = rng.usize(s.len());
+                        let old = s[i];
+                        let mut c = old;
+                        while c.eq_ignore_ascii_case(&old) {
+                            c = *rng.pick(b"ABCDEFGHIJKLMNOPQRSTUVWXYZabcdefghijklmnopqrstuvwxyz0123456789./-");
+                        }
+                        // the first character must stay a letter or `/` for the lexer to see a suffix at all
+                        if i == 0 && !(c.is_ascii_alphabetic() || c == b'/') {
+                            c = b'Q';
+                        }
+                        s[i] = c;
+                    }
                     _ => {
                         if s.len() > 1 {
                             let i = rng.usize(s.len());
